@@ -586,8 +586,12 @@ class ExcelModel:
         dsp = self.dsp.shrink_dsp(inputs=inputs, outputs=outputs)
         inp = set(inputs)
         nodes = dsp.nodes
-        for i in inputs:
-            inp.update(nodes.get(i, {}).get('inv-data', ()))
+        stack = list(inputs)
+        while stack:  # A name feeds a range that feeds its cells.
+            for i in nodes.get(stack.pop(), {}).get('inv-data', ()):
+                if i not in inp:
+                    inp.add(i)
+                    stack.append(i)
         dsp.default_values = {
             k: v for k, v in dsp.default_values.items() if k not in inp
         }
